@@ -244,15 +244,61 @@ func c10Build(host, k, mode, hashKind int) (tpls map[string]string, ctx map[stri
 
 const c10Hosts = 7
 
+// Nested calls: the statement under test sits inside a template that is itself included (wrapper 0) or
+// inside the override block of an embed (wrapper 1), called with its own mode and with-hash. The inner call
+// site's variables are what the outer call made visible.
+func c10Nested(host, wrap, m1, hk1, k, m2, hk2 int) (tpls map[string]string, ctx map[string]stick.Value, want string) {
+	tpls = map[string]string{}
+	for n, s := range c10Tpls {
+		tpls[n] = s
+	}
+	hv := map[string]stick.Value{"x": "wx", "w": "ww"}
+	ctx = map[string]stick.Value{"y": "cy", "hv": hv}
+	site := c10Vars{"y": "cy"}
+	pre := ""
+	if host == 1 {
+		pre = "{% set x = 'hx' %}"
+		site["x"] = "hx"
+	}
+	mid := c10TargetVars(site, m1, hk1)
+	inner, innerOut := c10Stmt(k, m2, hk2, mid)
+	// what the middle template prints after the inner call: its own view is unchanged by it
+	midAfter := "|mid x={{ x }}|{{ probe('x') }} fresh={{ probe('fresh') }}"
+	p := "U"
+	if _, ok := mid["x"]; ok {
+		p = "D"
+	}
+	midAfterExp := "|mid x=" + mid.get("x") + "|" + p + " fresh=U"
+	var outer, outerOut string
+	if wrap == 0 {
+		tpls["mid"] = "M[" + inner + "]" + midAfter
+		outer = "{% include 'mid'" + c10Args(m1, hk1) + " %}"
+		outerOut = "M[" + innerOut + "]" + midAfterExp
+	} else {
+		outer = "{% embed 'T4'" + c10Args(m1, hk1) + " %}{% block b %}M[" + inner + "]" + midAfter + "{% endblock %}{% endembed %}"
+		outerOut = "T4[t4a x=" + mid.get("x") + "|M[" + innerOut + "]" + midAfterExp + "]"
+	}
+	tpls["main"] = pre + "[" + outer + "]" + c10After
+	want = "[" + outerOut + "]" + c10AfterExp(site)
+	return
+}
+
 func c10Run(c core.Case) core.Result {
-	host, k, mode, hk := c.N[0], c.N[1], c.N[2], c.N[3]
-	tpls, ctx, want := c10Build(host, k, mode, hk)
+	var tpls map[string]string
+	var ctx map[string]stick.Value
+	var want string
+	if c.Fam == "nested" {
+		tpls, ctx, want = c10Nested(c.N[0], c.N[1], c.N[2], c.N[3], c.N[4], c.N[5], c.N[6])
+	} else {
+		host, k, mode, hk := c.N[0], c.N[1], c.N[2], c.N[3]
+		tpls, ctx, want = c10Build(host, k, mode, hk)
+	}
 	env := stick.New(&stick.MemoryLoader{Templates: tpls})
 	env.Functions["probe"] = c07Env().Functions["probe"]
 	out, err, pan := tryExec(env, "main", ctx)
 	var names []string
 	for n := range tpls {
-		if strings.Contains(tpls["main"], "'"+n+"'") {
+		if strings.Contains(tpls["main"], "'"+n+"'") || (n != "main" && strings.Contains(tpls["mid"], "'"+n+"'")) {
 			names = append(names, n)
 		}
 	}
@@ -289,6 +335,32 @@ func c10Levels(tier string) []core.Level {
 				}
 			}
 		}},
+		{Name: "nested calls: {top level with x unset / set} x {inside an included template, inside the override block of an embed} x outer {plain, with, only, with only} x 3 with-hashes x 19 inner statements x inner modes x with-hashes", Gen: func(emit func(core.Case)) {
+			modes := func(f func(m, hk int)) {
+				for m := 0; m < 4; m++ {
+					for hk := 0; hk < 3; hk++ {
+						if (m == 0 || m == 2) && hk >= 1 {
+							continue
+						}
+						f(m, hk)
+					}
+				}
+			}
+			for host := 0; host < 2; host++ {
+				for wrap := 0; wrap < 2; wrap++ {
+					modes(func(m1, hk1 int) {
+						for k := 0; k < c10Stmts; k++ {
+							modes(func(m2, hk2 int) {
+								if m1 >= 2 && hk2 == 2 {
+									return // the host variable holding the hash is not visible below an "only" call
+								}
+								emit(core.Case{Fam: "nested", N: []int{host, wrap, m1, hk1, k, m2, hk2}})
+							})
+						}
+					})
+				}
+			}
+		}},
 	}
 }
 
@@ -297,7 +369,7 @@ func init() {
 		ID:       "C10",
 		Category: "exploration",
 		Rule: "full product of: call site / host state (top level with x unset or set; loop body with the loop variable named x or another name; block body of an extending child whose blocks are named like the target's, x set or unset; macro body with parameter x) x statement (include of 5 targets: printing x,y,w with definedness, setting x, setting a fresh name, extending a base, defining blocks named like the host's; embed of 4 targets (one assigning variables at its root) with overrides {}, {a}, {a,b}; the same target embedded twice with different overrides; embed followed by include) x {plain, with, only, with only} x 3 with-hashes (two literals and a host variable holding a Go map, which must be unchanged afterwards); the host prints x and the definedness of the fresh name afterwards. " +
-			"Reference: visible variables = call-site variables plus with-hash, or with-hash only; no write-back; overrides per embed only; host blocks irrelevant. distinct = distinct configuration; non-trivial = all",
+			"A second level nests every statement inside an included template or inside the override block of an embed, each called with its own mode and with-hash (the inner call site sees what the outer call made visible). Reference: visible variables = call-site variables plus with-hash, or with-hash only; no write-back; overrides per embed only; host blocks irrelevant. distinct = distinct configuration; non-trivial = all",
 		Assumptions: []string{"inside a macro body only the parameter is at the call site (stick's macro scope also exposes outer variables; not claimed)"},
 		Levels:      c10Levels,
 		Run:         c10Run,
